@@ -138,7 +138,12 @@ def c14(ck):
           # max_worker_threads = 0 is a legal value of the configuration field: connections are still served (one at a time)
           # (initial_worker_threads = 0 is documented to panic and is not a configuration)
           ("listen_1_0_second_waits", 1, 0, ["0:1200:" + okr, "250:100:" + okr], "waits"),
-          ("listen_3_0_single", 3, 0, ["0:200:" + okr], "waits")]
+          ("listen_3_0_single", 3, 0, ["0:200:" + okr], "waits"),
+          # connections whose requests are refused (method without interface part, unknown interface, garbage) occupy a worker
+          # no longer than any other: with max = 2, two of them, then two ordinary ones - all four are answered or closed
+          ("listen_1_2_after_refused_requests", 1, 2, ["0:100:" + hx(enc(req("GetInfo"))), "50:100:" + hx(enc(req("nodots", {"a": 1}))),
+                                                     "400:100:" + okr, "450:100:" + okr], "all"),
+          ("listen_1_1_after_garbage", 1, 1, ["0:100:" + hx(b"garbage\0"), "300:100:" + okr], "later_served")]
     lines = ["l%d listen_run 0 2600 %d %d %s | %s" % (i, ini, mx, DEFAULT_SVC.tokens(), " ".join(h)) for i, (_, ini, mx, h, _) in enumerate(sc)]
     res = run_lines(harness_bin("h_service"), lines, shards=len(lines), timeout=300, env=dict(ENV, VH_TMP=os.path.join(BUILD, "tmp")))
     for i, (name, ini, mx, h, kind) in enumerate(sc):
@@ -152,6 +157,8 @@ def c14(ck):
             continue
         closed = [int(c.split(":")[1].split("@")[1]) for c in conns]
         unanswered = [k for k, c in enumerate(conns) if len(c.split(":")) < 3 or c.split(":")[2] in ("", "-")]
+        if kind == "later_served":
+            unanswered = [k for k in unanswered if k != 0]      # (the garbage itself gets no reply)
         if unanswered:
             ck.failures.append({"what": "a connection accepted by listen() was never served: it got no reply to its request", "scenario": name,
                                 "initial_worker_threads": ini, "max_worker_threads": mx, "connections (connect ms : hold ms)": [x.rsplit(":", 1)[0] for x in h],
@@ -200,6 +207,11 @@ def c15(ck):
     # max_worker_threads = 0 (a legal value): accepted connections are served and accounted for as with any other limit
     sc.append(("stop_max0_conn", 0, 500, 1, 0, ["100:100:" + ok_req], {"ret": "ok", "not_before": 490, "not_after": 1100, "complete": 1}))
     sc.append(("idle1_max0_conn", 1, None, 1, 0, ["300:100:" + ok_req], {"ret": "Timeout", "not_before": 1250, "not_after": 3200, "complete": 1}))
+    # a handled signal reaches the thread blocked in listen()'s wait: not a timeout - the idle period still counts from the
+    # last new connection (here one that arrives after the signal)
+    sc.append(("idle2_signal_then_conn", 2, None, 1, 4, ["signal:300", "800:100:" + ok_req], {"ret": "Timeout", "not_before": 2750, "not_after": 5200, "complete": 1}))
+    sc.append(("stop_idle1_signals", 1, 60000, 1, 4, ["signal:150", "signal:250", "signal:350", "600:100:" + ok_req],
+               {"ret": "Timeout", "not_before": 1550, "not_after": 3400, "complete": 1}))
     # more connections open than max_worker_threads: the one waiting in the queue is an accepted, unfinished connection like
     # any other - the server is not idle while it is being served later on, and a newcomer is still accepted and served
     sc.append(("idle1_max1_queued_conn_outlives_first", 1, None, 1, 1, ["0:600:" + ok_req, "200:2300:" + ok_req, "2100:100:" + ok_req],
@@ -374,6 +386,35 @@ def c13(ck):
                                     "got": got.decode("utf-8", "replace")[:600], "expected": want_alone.decode("utf-8", "replace")[:600]})
             if mid in model and canon_reply_stream(unhx(fields(model[mid]).get("out", "-"))) != canon_reply_stream(got):
                 ck.tie_broken.append("model/implementation disagree for a concurrent client: stream %s" % s.hex()[:300])
+    # one peer sends deeply nested (legal) parameters while others talk, against the unoptimised build of the server (largest
+    # stack frames): its neighbours still get their own replies
+    okd, logd = build_harness(["h_service"], profile="deep")
+    if okd:
+        dl, dmeta = [], {}
+        for n, depth in enumerate((60, 100, 120)):
+            nested = 1
+            for _ in range(depth):
+                nested = [nested]
+            streams = [stream_of([make("ok", "-", {"client": "deep-%d-%d" % (n, c), "i": i}) for i in range(3)]) for c in range(3)]
+            streams.insert(1, stream_of([make("ok", "-", {"client": "nested", "v": nested})]))
+            dl.append("d%d par 100 %s | %s" % (n, svc.tokens(), " ".join("normal:%d:%s" % (200 if j != 1 else 20000, hx(x)) for j, x in enumerate(streams))))
+            dmeta["d%d" % n] = (depth, streams)
+        dres = run_lines(harness_bin("h_service", profile="deep"), dl, shards=len(dl), timeout=300)
+        al = run_lines(harness_bin("h_service"), ["%s_%d feed %s | %s" % (cid, j, svc.tokens(), hx(x)) for cid, (d_, ss) in dmeta.items() for j, x in enumerate(ss)], shards=4)
+        for cid, (depth, streams) in dmeta.items():
+            ck.case("nested-neighbour|%d" % depth)
+            ck.count("nested_neighbour_unoptimised")
+            f = fields(dres.get(cid, ""))
+            if "outs" not in f:
+                ck.failures.append({"what": "the server died / the run failed while one peer sent %d-fold nested parameters beside three ordinary clients (unoptimised build)" % depth,
+                                    "result": dres.get(cid, "")[:200]})
+                continue
+            for j, x in enumerate(streams):
+                o, to = f["outs"].split(";")[j].split("/")
+                want = unhx(fields(al["%s_%d" % (cid, j)]).get("out", "-"))
+                if to == "1" or canon_reply_stream(unhx(o)) != canon_reply_stream(want):
+                    ck.failures.append({"what": "a client did not receive its own replies while a neighbour sent deeply nested parameters (unoptimised build)",
+                                        "nesting": depth, "client": j, "got": unhx(o).decode("utf-8", "replace")[:300]})
     from check_service import c13_reference_multiplex, c13_reference_service
     c13_reference_multiplex(ck)
     c13_reference_service(ck)
